@@ -50,6 +50,9 @@ def setup(cfg, root):
     if cfg["desc"] != "missing":
         with open(os.path.join(root, "bp", "buildpack.toml"), "w") as f:
             f.write(cfg.get("desc_text") or DESC[cfg["desc"]])
+    # the layout <dir>/bin/<phase> with a valid <dir>/buildpack.toml: still no substitute for CNB_BUILDPACK_DIR
+    with open(os.path.join(root, "buildpack.toml"), "w") as f:
+        f.write(DESC["ok"])
     envd = os.path.join(root, "platform", "env")
     if cfg["plat"] != "env_missing":
         os.makedirs(envd)
